@@ -320,4 +320,474 @@ theorem cxxSuffixes_func (env : Env) (ps : List Decl) (tys : List CxxType) (fc :
       simp only [NotKind] at hq
       simp [hq, ha]
 
+/-! ### declarators -/
+
+def refsPlainD : Declarator → Prop
+  | .leaf ps _ => RefsPlain ps
+  | .wrap ps i => RefsPlain ps ∧ refsPlainD i
+
+theorem opsOf_nil (d : Declarator) : opsOf d [] = declaratorOps d := by
+  cases d <;> simp [opsOf, declaratorOps]
+
+theorem ptrsToks_len (ps : List Ptr) : ps.length ≤ (ptrsToks false ps).length := by
+  induction ps with
+  | nil => simp [ptrsToks]
+  | cons p ps ih => simp [ptrsToks, Ptr.toks]; omega
+
+theorem starts_WFD (env : Env) (d : Declarator) (hwf : WFD env d) (rest : Toks) :
+    startsDeclarator env (d.toks false ++ rest) = true := by
+  cases d with
+  | leaf ps name =>
+    cases ps with
+    | cons p ps' =>
+      obtain ⟨k, c, v⟩ := p
+      cases k <;> simp [Declarator.toks, ptrsToks, Ptr.toks, startsDeclarator, tk]
+    | nil =>
+      cases name with
+      | none => exact absurd rfl hwf
+      | some n =>
+        obtain ⟨hc, hu, _⟩ := hwf
+        simp [Declarator.toks, ptrsToks, startsDeclarator, nameTok, hc, isTypeName, hu]
+  | wrap ps i =>
+    cases ps with
+    | cons p ps' =>
+      obtain ⟨k, c, v⟩ := p
+      cases k <;> simp [Declarator.toks, ptrsToks, Ptr.toks, startsDeclarator, tk]
+    | nil => simp [Declarator.toks, ptrsToks, startsDeclarator, tk]
+
+theorem cxxDeclarator_print (env : Env) : ∀ (d : Declarator) (S R : Toks) (sfx : List Op) (n0 n : Nat),
+    WFD env d → refsPlainD d → (d.named = false → AbsStop S) →
+    (∀ m, m ≥ n0 → cxxSuffixes env m S = some (sfx, R)) → n0 ≥ 1 → n > d.depth + n0 →
+    cxxDeclarator env n (d.toks false ++ S) = some (declaratorName d, opsOf d sfx, R) := by
+  intro d
+  induction d with
+  | leaf ps name =>
+    intro S R sfx n0 n wf hrp hstop hS hn0 hn
+    obtain ⟨m, rfl⟩ : ∃ m, n = m + 1 := ⟨n - 1, by omega⟩
+    simp only [Declarator.depth] at hn
+    have hSm := hS m (by omega)
+    cases name with
+    | some nm =>
+      obtain ⟨hc, _⟩ := wf
+      simp only [Declarator.toks, List.append_assoc, List.cons_append, List.nil_append]
+      have hp := cxxPtrOps_print ps (nameTok nm :: S) (ptrsToks false ps ++ nameTok nm :: S).length hrp
+        (by simp [PtrStop, nameTok, hc]) (by have := ptrsToks_len ps; simp; omega)
+      rw [cxxDeclarator]
+      simp only [hp]
+      simp [nameTok, hc, hSm, declaratorName, opsOf]
+    | none =>
+      have hs := hstop rfl
+      simp only [Declarator.toks, List.append_nil]
+      have hp := cxxPtrOps_print ps S (ptrsToks false ps ++ S).length hrp hs.ptrStop
+        (by have := ptrsToks_len ps; simp; omega)
+      rw [cxxDeclarator]
+      simp only [hp]
+      cases S with
+      | nil =>
+        have : cxxSuffixes env m [] = some ([], []) := by
+          cases m <;> simp [cxxSuffixes] at hSm ⊢
+        rw [this] at hSm
+        cases hSm
+        simp [declaratorName, opsOf]
+      | cons t ts =>
+        obtain ⟨_, _, _, h4, h5⟩ := hs
+        simp [h4, h5, hSm, declaratorName, opsOf]
+  | wrap ps inner ih =>
+    intro S R sfx n0 n wf hrp _ hS hn0 hn
+    obtain ⟨m, rfl⟩ : ∃ m, n = m + 1 := ⟨n - 1, by omega⟩
+    simp only [Declarator.depth] at hn
+    have hSm := hS m (by omega)
+    have hi := ih (tk .RPAREN ")" :: S) (tk .RPAREN ")" :: S) [] 1 m wf hrp.2
+      (fun _ => by simp [AbsStop, tk])
+      (fun k hk => by
+        obtain ⟨k', rfl⟩ : ∃ k', k = k' + 1 := ⟨k - 1, by omega⟩
+        exact cxxSuffixes_none env k' _ (by simp [NoSuffix, tk])) (by omega) (by omega)
+    rw [opsOf_nil] at hi
+    simp only [Declarator.toks, List.append_assoc, List.cons_append, List.nil_append]
+    have hp := cxxPtrOps_print ps (tk .LPAREN "(" :: (inner.toks false ++ tk .RPAREN ")" :: S))
+      (ptrsToks false ps ++ tk .LPAREN "(" :: (inner.toks false ++ tk .RPAREN ")" :: S)).length hrp.1
+      (by simp [PtrStop, tk]) (by have := ptrsToks_len ps; simp; omega)
+    have hst := starts_WFD env inner wf (tk .RPAREN ")" :: S)
+    rw [cxxDeclarator]
+    simp only [hp]
+    simp [tk] at hi hst
+    simp [tk, hst, hi, hSm, declaratorName, opsOf]
+
+/-! ### declarations -/
+
+mutual
+/-- meaning domain on top of `WF`: references carry no cv-qualifier, and a parameter whose
+    specifier is just `void` has a declarator (`void *p`; a bare `void` parameter is only
+    legal as the whole list `(void)`) -/
+def RP : Decl → Prop
+  | .mk _ dr params _ _ _ _ => (∀ d, dr = some d → refsPlainD d) ∧ RPo params
+def RPo : Option (List Decl) → Prop
+  | none => True
+  | some ps => RPs ps
+def RPs : List Decl → Prop
+  | [] => True
+  | p :: ps => RP p ∧ (p.spec.specifier = [sp "void"] → p.declarator ≠ none) ∧ RPs ps
+end
+
+theorem RPs_mem : ∀ {ps : List Decl}, RPs ps → ∀ p ∈ ps, RP p := by
+  intro ps
+  induction ps with
+  | nil => intro _ p hp; cases hp
+  | cons a t ih =>
+    intro h p hp
+    simp only [RPs] at h
+    cases hp with
+    | head => exact h.1
+    | tail _ h' => exact ih h.2.2 p h'
+
+def ptoks (params : Option (List Decl)) (fc : Bool) : Toks :=
+  match params with
+  | none => []
+  | some ps => tk .LPAREN "(" :: (paramsInner ps ++ tk .RPAREN ")" :: fcToks fc)
+
+def dtoks (dr : Option Declarator) : Toks :=
+  match dr with
+  | some d => d.toks false
+  | none => []
+
+/-- the tokens of a rendered declaration after its specifiers -/
+def tailToks (dr : Option Declarator) (params : Option (List Decl)) (fc : Bool) (arr : List Expr) : Toks :=
+  dtoks dr ++ (ptoks params fc ++ arraysToks arr)
+
+theorem declaratorPart (env : Env) (dr : Option Declarator) (params : Option (List Decl)) (fc : Bool)
+    (arr : List Expr) (R : Toks) (fo : List Op) (kp n : Nat)
+    (hd : ∀ d, dr = some d → WFD env d ∧ refsPlainD d)
+    (harr : ∀ e ∈ arr, SimpleDim e)
+    (hpar : match params with | none => fo = [] | some _ => ∃ d, dr = some d ∧ d.named = true)
+    (hR : Hd (fun k => k = .PLUS ∨ k = .COMMA ∨ k = .RPAREN) R)
+    (HP : ∀ ps, params = some ps → ∃ tys, fo = [Op.func tys fc] ∧
+            ∀ k, k ≥ kp → ∀ X, cxxParams env k (paramsInner ps ++ tk .RPAREN ")" :: X) = some (tys, X))
+    (hn : n ≥ (dtoks dr).length + kp + arr.length + 6) :
+    cxxDeclarator env n (tailToks dr params fc arr ++ R)
+      = some (dr.bind declaratorName, denOps dr (fo ++ arr.map (fun e => Op.arr (printExpr e))), R) := by
+  have hK : Hd K4 R := by
+    cases R with
+    | nil => trivial
+    | cons t ts =>
+      simp only [Hd] at hR ⊢
+      rcases (by simpa using hR : t.typ = .PLUS ∨ t.typ = .COMMA ∨ t.typ = .RPAREN) with h | h | h <;> simp [h, K4]
+  -- the suffix part
+  have hS : ∀ m, m ≥ kp + arr.length + 2 →
+      cxxSuffixes env m (ptoks params fc ++ arraysToks arr ++ R)
+        = some (fo ++ arr.map (fun e => Op.arr (printExpr e)), R) := by
+    intro m hm
+    cases params with
+    | none =>
+      simp only at hpar
+      subst hpar
+      simpa [ptoks] using cxxSuffixes_arrays env arr R m harr (K4_noSuffixAfterArrays hR) (by omega)
+    | some ps =>
+      obtain ⟨tys, hfo, hp⟩ := HP ps rfl
+      subst hfo
+      obtain ⟨m', rfl⟩ : ∃ m', m = m' + 1 := ⟨m - 1, by omega⟩
+      have := cxxSuffixes_func env ps tys fc arr R m' (fun X => hp m' (by omega) X) harr hR (by omega)
+      simpa [ptoks, List.append_assoc] using this
+  cases dr with
+  | some d =>
+    obtain ⟨hwd, hrp⟩ := hd d rfl
+    have hdl := d.depth_le
+    have hstop : d.named = false → AbsStop (ptoks params fc ++ arraysToks arr ++ R) := by
+      intro hnm
+      cases params with
+      | none =>
+        have := (arraysToks_noLParen arr R hK).2
+        simpa [ptoks] using (Hd_K4_cases (env := env) this).2.1
+      | some ps =>
+        obtain ⟨d', hd', hn'⟩ := hpar
+        cases hd'
+        simp [hnm] at hn'
+    have := cxxDeclarator_print env d _ R _ (kp + arr.length + 2) n hwd hrp hstop hS (by omega)
+      (by simp only [dtoks] at hn; omega)
+    simpa [tailToks, dtoks, denOps, List.append_assoc] using this
+  | none =>
+    have hpn : params = none := by
+      cases params with
+      | none => rfl
+      | some ps => obtain ⟨d', hd', _⟩ := hpar; cases hd'
+    subst hpn
+    simp only at hpar
+    subst hpar
+    obtain ⟨m, rfl⟩ : ∃ m, n = m + 1 := ⟨n - 1, by omega⟩
+    have hA := (arraysToks_noLParen arr R hK).2
+    obtain ⟨_, k2, _, _⟩ := Hd_K4_cases (env := env) hA
+    have hp := cxxPtrOps_print [] (arraysToks arr ++ R) (arraysToks arr ++ R).length (by intro p hp; cases hp)
+      k2.ptrStop (by simp)
+    simp only [ptrsToks, List.nil_append, List.map_nil] at hp
+    have hSm := hS m (by simp only [dtoks, List.length_nil] at hn; omega)
+    simp only [ptoks, List.nil_append] at hSm
+    simp only [tailToks, dtoks, ptoks, List.nil_append, Option.bind, denOps]
+    rw [cxxDeclarator]
+    simp only [hp]
+    generalize hT : arraysToks arr ++ R = T at hSm k2
+    cases T with
+    | nil =>
+      have : arr = [] := by
+        cases arr with
+        | nil => rfl
+        | cons e es => simp [arraysToks] at hT
+      subst this
+      have hR' : R = [] := by simpa [arraysToks] using hT
+      simp [hR']
+    | cons t ts =>
+      obtain ⟨_, _, _, h4, h5⟩ := k2
+      simp [h4, h5, hSm]
+
+theorem toks_split (s : Spec) (dr : Option Declarator) (params : Option (List Decl)) (fc : Bool)
+    (arr : List Expr) (attrs : List (Str × AttrVal)) (init : Option Init) (rest : Toks) :
+    (Decl.mk s dr params fc arr attrs init).toks ++ rest
+      = s.toks ++ (tailToks dr params fc arr ++ (attrsToks attrs ++ rest)) := by
+  rw [Decl.toks_eq]
+  cases dr <;> cases params <;> simp [tailToks, dtoks, ptoks, List.append_assoc]
+
+theorem declCore (env : Env) (hb : BaseAgrees env) (s : Spec) (dr : Option Declarator)
+    (params : Option (List Decl)) (fc : Bool) (arr : List Expr) (attrs : List (Str × AttrVal)) (rest : Toks)
+    (fo : List Op) (kp n : Nat)
+    (hs : WFSpec env s) (hd : ∀ d, dr = some d → WFD env d ∧ refsPlainD d)
+    (harr : ∀ e ∈ arr, SimpleDim e) (hattr : ∀ a ∈ attrs, WFAttr a)
+    (hpar : match params with | none => fo = [] | some _ => ∃ d, dr = some d ∧ d.named = true)
+    (hrest : DeclFollow rest)
+    (HP : ∀ ps, params = some ps → ∃ tys, fo = [Op.func tys fc] ∧
+            ∀ k, k ≥ kp → ∀ X, cxxParams env k (paramsInner ps ++ tk .RPAREN ")" :: X) = some (tys, X))
+    (hn : n ≥ (dtoks dr).length + kp + arr.length + 6) :
+    ∃ acc b, cxxSpec env (s.toks ++ (tailToks dr params fc arr ++ (attrsToks attrs ++ rest))) {}
+        = (acc, tailToks dr params fc arr ++ (attrsToks attrs ++ rest))
+      ∧ acc.base = some b ∧ denoteBase env s = some b
+      ∧ cxxDeclarator env n (tailToks dr params fc arr ++ (attrsToks attrs ++ rest))
+          = some (dr.bind declaratorName, denOps dr (fo ++ arr.map (fun e => Op.arr (printExpr e))), attrsToks attrs ++ rest)
+      ∧ skipAttrs ((attrsToks attrs ++ rest).length + 1) (attrsToks attrs ++ rest) = some rest := by
+  have hA := Hd_attrs attrs rest hattr hrest
+  have hT4 := Hd_tail arr attrs rest hattr hrest
+  have hstop : SpecStop env (tailToks dr params fc arr ++ (attrsToks attrs ++ rest)) := by
+    cases dr with
+    | some d =>
+      have := (hd d rfl).1
+      simpa [tailToks, dtoks, List.append_assoc] using d.toks_head env this _
+    | none =>
+      have hpn : params = none := by
+        cases params with
+        | none => rfl
+        | some ps => obtain ⟨d', hd', _⟩ := hpar; cases hd'
+      subst hpn
+      simpa [tailToks, dtoks, ptoks] using (Hd_K4_cases (env := env) hT4).1
+  obtain ⟨acc, b, h1, h2, h3⟩ := cxxSpec_print env hb s _ hs hstop
+  refine ⟨acc, b, h1, h2, h3, ?_, ?_⟩
+  · exact declaratorPart env dr params fc arr _ fo kp n hd harr hpar hA HP hn
+  · apply skipAttrs_print attrs rest _ hattr hrest
+    have := attrsToks_len attrs hattr
+    simp only [List.length_append]
+    omega
+
+theorem denote_mk (env : Env) (s : Spec) (dr : Option Declarator) (params : Option (List Decl)) (fc : Bool)
+    (arr : List Expr) (attrs : List (Str × AttrVal)) (init : Option Init) (b : CxxType) (fo : List Op)
+    (hb : denoteBase env s = some b) (hf : denoteParams env fc params = some fo) :
+    denote env (.mk s dr params fc arr attrs init)
+      = some (applyOps b (denOps dr (fo ++ arr.map (fun e => Op.arr (printExpr e))))) := by
+  simp [denote, hb, hf]
+
+/-! ### parameter lists -/
+
+theorem starts_notRParen (env : Env) (ts : Toks) (h : startsDeclarator env ts = true) : nextIs .RPAREN ts = false := by
+  cases ts with
+  | nil => rfl
+  | cons t r =>
+    simp only [startsDeclarator, Bool.or_eq_true, beq_iff_eq, Bool.and_eq_true] at h
+    rcases h with ((h | h) | h) | ⟨h, _⟩ <;> simp [nextIs, h]
+
+theorem notBareVoid (env : Env) (p : Decl) (Y : Toks) (wf : WF env p)
+    (hv : p.spec.specifier = [sp "void"] → p.declarator ≠ none) :
+    ∃ t r, p.toks ++ Y = t :: r ∧ t.typ ≠ .RPAREN ∧
+      ¬ (t.typ = .TYPE_SPECIFIER ∧ t.val = "void".toList ∧ nextIs .RPAREN r = true) := by
+  obtain ⟨s, dr, params, fc, arr, attrs, init⟩ := p
+  simp only [WF] at wf
+  obtain ⟨hs, hd, _⟩ := wf
+  rw [toks_split]
+  obtain ⟨spc, sto, c, v, targs, tm⟩ := s
+  obtain ⟨_, hsto, hsp⟩ := hs
+  simp only [Spec.toks, Spec.const, Spec.volatile, Spec.storage, Spec.specifier, Decl.spec, Decl.declarator] at *
+  cases c
+  · cases v
+    · cases sto with
+      | cons a as => exact ⟨nameTok a, _, rfl, by simp [nameTok, hsto a (by simp)], by simp [nameTok, hsto a (by simp)]⟩
+      | nil =>
+        cases spc with
+        | nil =>
+          rcases hsp with ⟨h, _⟩ | ⟨name, h, _⟩
+          · exact absurd rfl h
+          · cases h
+        | cons x xs =>
+          refine ⟨nameTok x, _, rfl, ?_, ?_⟩
+          · rcases hsp with ⟨_, h, _⟩ | ⟨name, h, hc, _⟩
+            · simp [nameTok, h x (by simp)]
+            · cases h; simp [nameTok, hc]
+          · intro ⟨_, hval, hnext⟩
+            simp only [nameTok] at hval
+            cases xs with
+            | cons y ys =>
+              rcases hsp with ⟨_, h, _⟩ | ⟨name, h, _⟩
+              · simp [nextIs, nameTok, h y (by simp)] at hnext
+              · cases h
+            | nil =>
+              have hx : x = sp "void" := hval
+              subst hx
+              have hdr := hv rfl
+              cases dr with
+              | none => exact absurd rfl hdr
+              | some d =>
+                have := starts_notRParen env _ (starts_WFD env d (hd d rfl)
+                  (ptoks params fc ++ arraysToks arr ++ (attrsToks attrs ++ Y)))
+                simp [cvToks, tailToks, dtoks, List.append_assoc] at hnext
+                simp [List.append_assoc] at this
+                rw [this] at hnext
+                cases hnext
+    · exact ⟨_, _, rfl, by simp [tk], by simp [tk]⟩
+  · exact ⟨_, _, rfl, by simp [tk], by simp [tk]⟩
+
+/-- the reference meaning of the rendering of `d` as a parameter is what `d` denotes -/
+def MT (env : Env) (d : Decl) : Prop :=
+  ∀ (rest : Toks) (n : Nat), DeclFollow rest → n ≥ 4 * d.toks.length + 12 →
+    ∃ T, denote env d = some T ∧ cxxParam env n (d.toks ++ rest) = some (T, rest)
+
+theorem cxxParamsTail_print (env : Env) : ∀ (ps : List Decl) (p : Decl) (k : Nat) (X : Toks),
+    (∀ q ∈ p :: ps, WF env q ∧ MT env q) → k ≥ 4 * (p.toks ++ paramsTailToks ps).length + 14 →
+    ∃ tys, denoteList env (p :: ps) = some tys ∧
+      cxxParamsTail env k (p.toks ++ paramsTailToks ps ++ tk .RPAREN ")" :: X) = some (tys, X) := by
+  intro ps
+  induction ps with
+  | nil =>
+    intro p k X h hk
+    obtain ⟨hwf, hmt⟩ := h p (by simp)
+    simp only [paramsTailToks, List.append_nil, List.length_append, List.length_nil] at hk ⊢
+    obtain ⟨k', rfl⟩ : ∃ k', k = k' + 1 := ⟨k - 1, by omega⟩
+    obtain ⟨T, hT, hp⟩ := hmt (tk .RPAREN ")" :: X) k' (by simp [DeclFollow, tk]) (by omega)
+    refine ⟨[T], by simp [denoteList, hT], ?_⟩
+    rw [cxxParamsTail]
+    simp [tk] at hp
+    simp [hp, tk]
+  | cons q qs ih =>
+    intro p k X h hk
+    obtain ⟨hwf, hmt⟩ := h p (by simp)
+    simp only [paramsTailToks, List.length_append, List.length_cons, List.append_assoc, List.cons_append,
+      List.nil_append] at hk ⊢
+    obtain ⟨k', rfl⟩ : ∃ k', k = k' + 1 := ⟨k - 1, by omega⟩
+    obtain ⟨T, hT, hp⟩ := hmt (tk .COMMA "," :: (q.toks ++ (paramsTailToks qs ++ tk .RPAREN ")" :: X))) k'
+      (by simp [DeclFollow, tk]) (by omega)
+    obtain ⟨tys, hl, hi⟩ := ih q k' X (fun x hx => h x (by simp at hx ⊢; exact Or.inr hx))
+      (by simp only [List.length_append]; omega)
+    simp only [List.append_assoc] at hi
+    refine ⟨T :: tys, by simp [denoteList, hT] at hl ⊢; simp [denoteList, hT, hl], ?_⟩
+    rw [cxxParamsTail]
+    simp [tk] at hp hi
+    simp [hp, tk, hi]
+
+theorem cxxParams_print (env : Env) (ps : List Decl) (k : Nat) (X : Toks)
+    (h : ∀ q ∈ ps, WF env q ∧ MT env q) (hrp : RPs ps)
+    (hk : k ≥ 4 * (paramsInner ps).length + 15) :
+    ∃ tys, denoteList env ps = some tys ∧
+      cxxParams env k (paramsInner ps ++ tk .RPAREN ")" :: X) = some (tys, X) := by
+  obtain ⟨k', rfl⟩ : ∃ k', k = k' + 1 := ⟨k - 1, by omega⟩
+  cases ps with
+  | nil =>
+    refine ⟨[], rfl, ?_⟩
+    simp [paramsInner, cxxParams, tk, nextIs]
+  | cons p ps' =>
+    simp only [RPs] at hrp
+    obtain ⟨t, r, e, h1, h2⟩ := notBareVoid env p (paramsTailToks ps' ++ tk .RPAREN ")" :: X) (h p (by simp)).1 hrp.2.1
+    obtain ⟨tys, hl, ht⟩ := cxxParamsTail_print env ps' p k' X h (by simp only [paramsInner] at hk; omega)
+    refine ⟨tys, hl, ?_⟩
+    simp only [paramsInner, List.append_assoc] at ht ⊢
+    rw [e] at ht ⊢
+    have : ¬ (t.typ = .TYPE_SPECIFIER ∧ t.val = "void".toList ∧ nextIs .RPAREN r = true) := h2
+    simp only [cxxParams, h1, this, if_false]
+    exact ht
+
+theorem specToks_len (env : Env) (s : Spec) (wf : WFSpec env s) : s.toks.length ≥ 1 := by
+  obtain ⟨t, ts, e, _⟩ := specToks_head env s wf
+  rw [e]; simp
+
+theorem declFacts (env : Env) (hb : BaseAgrees env) (s : Spec) (dr : Option Declarator)
+    (params : Option (List Decl)) (fc : Bool) (arr : List Expr) (attrs : List (Str × AttrVal))
+    (rest : Toks) (n : Nat)
+    (wf : WF env (.mk s dr params fc arr attrs none)) (rp : RP (.mk s dr params fc arr attrs none))
+    (ih : ∀ ps, params = some ps → ∀ p ∈ ps, WF env p → RP p → MT env p)
+    (hrest : DeclFollow rest) (hn : n ≥ 4 * (Decl.mk s dr params fc arr attrs none).toks.length + 11) :
+    ∃ acc b ops,
+      cxxSpec env ((Decl.mk s dr params fc arr attrs none).toks ++ rest) {}
+        = (acc, tailToks dr params fc arr ++ (attrsToks attrs ++ rest))
+      ∧ acc.base = some b
+      ∧ denote env (.mk s dr params fc arr attrs none) = some (applyOps b ops)
+      ∧ cxxDeclarator env n (tailToks dr params fc arr ++ (attrsToks attrs ++ rest))
+          = some (dr.bind declaratorName, ops, attrsToks attrs ++ rest)
+      ∧ skipAttrs ((attrsToks attrs ++ rest).length + 1) (attrsToks attrs ++ rest) = some rest := by
+  simp only [WF] at wf
+  obtain ⟨hs, hd, harr, hattr, _, _, hpar⟩ := wf
+  simp only [RP] at rp
+  obtain ⟨hrd, hrpo⟩ := rp
+  have hlen : (Decl.mk s dr params fc arr attrs none).toks.length
+      = s.toks.length + ((dtoks dr).length + ((ptoks params fc).length + (arraysToks arr).length)) + (attrsToks attrs).length := by
+    have := toks_split s dr params fc arr attrs none []
+    simp only [List.append_nil] at this
+    rw [this]
+    simp [tailToks, List.length_append]
+    omega
+  have hsl := specToks_len env s hs
+  have hal := arraysToks_len arr
+  rw [toks_split]
+  cases params with
+  | none =>
+    obtain ⟨acc, b, h1, h2, h3, h4, h5⟩ := declCore env hb s dr none fc arr attrs rest [] 0 n hs
+      (fun d h => ⟨hd d h, hrd d h⟩) harr hattr rfl hrest (by intro ps h; cases h)
+      (by rw [hlen] at hn; omega)
+    exact ⟨acc, b, _, h1, h2, denote_mk env s dr none fc arr attrs none b [] h3 rfl, h4, h5⟩
+  | some ps =>
+    simp only [WFo] at hpar
+    obtain ⟨hnamed, _, hwfs⟩ := hpar
+    simp only [RPo] at hrpo
+    have hq : ∀ q ∈ ps, WF env q ∧ MT env q := fun q hq =>
+      ⟨WFs_mem hwfs q hq, ih ps rfl q hq (WFs_mem hwfs q hq) (RPs_mem hrpo q hq)⟩
+    obtain ⟨tys, hl, _⟩ := cxxParams_print env ps (4 * (paramsInner ps).length + 15) [] hq hrpo (by omega)
+    have HP : ∀ ps', some ps = some ps' → ∃ tys', [Op.func tys fc] = [Op.func tys' fc] ∧
+        ∀ k, k ≥ 4 * (paramsInner ps).length + 15 → ∀ X,
+          cxxParams env k (paramsInner ps' ++ tk .RPAREN ")" :: X) = some (tys', X) := by
+      intro ps' e
+      cases e
+      refine ⟨tys, rfl, ?_⟩
+      intro k hk X
+      obtain ⟨tys', hl', hp'⟩ := cxxParams_print env ps k X hq hrpo hk
+      rw [hl] at hl'
+      cases hl'
+      exact hp'
+    have hpl : (ptoks (some ps) fc).length ≥ (paramsInner ps).length + 2 := by
+      simp [ptoks, List.length_append]
+    obtain ⟨acc, b, h1, h2, h3, h4, h5⟩ := declCore env hb s dr (some ps) fc arr attrs rest [Op.func tys fc]
+      (4 * (paramsInner ps).length + 15) n hs (fun d h => ⟨hd d h, hrd d h⟩) harr hattr hnamed hrest HP
+      (by rw [hlen] at hn; omega)
+    refine ⟨acc, b, _, h1, h2, denote_mk env s dr (some ps) fc arr attrs none b [Op.func tys fc] h3 ?_, h4, h5⟩
+    simp [denoteParams, hl]
+
+theorem meaning_all (env : Env) (hb : BaseAgrees env) : ∀ d, WF env d → RP d → MT env d := by
+  intro d
+  induction d using Decl.induct with
+  | _ s dr params fc arr attrs init ih =>
+    intro wf rp rest n hrest hn
+    have hinit : init = none := by simp only [WF] at wf; exact wf.2.2.2.2.2.1
+    subst hinit
+    obtain ⟨m, rfl⟩ : ∃ m, n = m + 1 := ⟨n - 1, by omega⟩
+    obtain ⟨acc, b, ops, h1, h2, h3, h4, h5⟩ := declFacts env hb s dr params fc arr attrs rest m wf rp
+      (fun ps hps p hp hw hr => ih ps hps p hp hw hr) hrest (by omega)
+    refine ⟨_, h3, ?_⟩
+    rw [cxxParam]
+    simp only [h1, h2, h4, h5]
+    cases rest with
+    | nil => rfl
+    | cons t ts =>
+      have : t.typ ≠ .EQUALS := by rcases hrest with h | h <;> simp [h]
+      cases ts with
+      | nil => rfl
+      | cons t2 ts2 => simp [this]
+
 end Shroud.Cxx
